@@ -213,17 +213,14 @@ JOIN_HANDLE_TYPES = ('desync::scheduler::scheduler_thread::SchedulerThread', 'st
 def bounded_join(ctx, fn, bb):
     """A join is bounded (not a blocking site) when the handle can only be one for which is_finished() returned true:
     every push onto the vector the joined handle is drawn from is dominated by the true edge of an is_finished() test."""
-    dom = fn.dominators()
+    from .ordq import result_edges, edom
     fin_true = set()
     for b2, t in fn.calls():
         name = t['func'].get('fn') or ''
         if name.endswith('::is_finished'):
-            tgt = t['target']
-            if tgt is None:
-                continue
-            sw = fn.blocks[tgt]['term']
-            if sw and sw['k'] == 'switch' and sw['discr']['k'] in ('copy', 'move') and sw['discr']['pl']['l'] == t['dest']['l']:
-                fin_true.add(sw['otherwise'])
+            e = result_edges(fn, b2)
+            if e and e.get('otherwise') is not None:
+                fin_true.add(e['otherwise'])
     if not fin_true:
         return None
     pushes = []
@@ -234,7 +231,7 @@ def bounded_join(ctx, fn, bb):
     if not pushes:
         return None
     for b2 in pushes:
-        if not any(ft in dom.get(b2, set()) for ft in fin_true):
+        if not any(edom(fn, ft, b2) for ft in fin_true):
             return None
     # the joined handle comes out of an iteration (into_iter / next) in this function, not from a parameter or field
     e = fn.expr_of_operand(fn.blocks[bb]['term']['args'][0])
